@@ -41,6 +41,8 @@ impl OnchainTxHandler {
 }
 //@const lightning/src/chain/channelmonitor.rs ANTI_REORG_DELAY
 pub struct BestBlock { pub height: u32 }
+pub enum OnchainEvent { FundingSpendConfirmation { on_local_output_csv: Option<u16> }, Other { id: u64 } }
+pub struct EventEntry { pub txid: Txid, pub height: u32, pub event: OnchainEvent }
 pub struct Extra {}
 pub struct Monitor { pub counterparty_commitment_txn_on_chain: NumberMap, pub broadcasted_holder_revokable_script: Option<Script>, pub onchain_tx_handler: OnchainTxHandler, pub best_block: BestBlock, pub destination_script: ScriptBuf }
 pub open spec fn to_claim(m: &Monitor, f: &FundingScope, confirmed: Txid, confirmed_height: Option<u32>, preimage: PaymentPreimage) -> Option<Claims> {
@@ -90,6 +92,20 @@ impl Monitor {
     (txid, Some(latest_conf_height))
 //@with
     (txid, None)
+//@end
+// and when the funding spend still waits for its depth, it is the height recorded with that spend (not the tip, which may be several blocks above it: a reorg of those blocks alone would drop the claim)
+//@extract lightning/src/chain/channelmonitor.rs :: impl ChannelMonitorImpl :: fn provide_payment_preimage
+//@slice R15
+    self.onchain_events_awaiting_threshold_conf.iter().find_map(|event| match event.event { $arms:any })
+//@with
+    fn where_a_pending_funding_spend_is_taken_to_have_confirmed(&self, event: &EventEntry) -> Option<(Txid, Option<u32>)> { match event.event { $arms } }
+//@ret r
+//@ensures P C11,C07 outputs-claimed-with-a-preimage-learned-while-the-funding-spend-waits-for-its-depth-are-recorded-as-existing-since-the-height-that-spend-confirmed-at
+    r == (if event.event is FundingSpendConfirmation { Some((event.txid, Some(event.height))) } else { None::<(Txid, Option<u32>)> }),
+//@mutant pending_spend_recorded_at_the_tip
+    Some((event.txid, Some(event.height)))
+//@with
+    Some((event.txid, Some(self.best_block.height)))
 //@end
 }
 }
